@@ -322,3 +322,54 @@ func c12JoinOperands(c *Ctx, rule string) {
 	})
 	c.Check(n >= 4, rule, "canJoin sites enumerated", fi.Decl.Pos(), itoa(n), "expected 4 canJoin sites, found "+itoa(n))
 }
+
+// c12AlwaysReturns: `and` / `unless` can filter every sample away, so the
+// "always returns" attribute of their left side has to be re-evaluated in the
+// many-to-many case; otherwise `(vector(1) and on() foo) or bar` declares bar dead.
+func c12AlwaysReturns(c *Ctx, rule string) {
+	fi := c.MustFunc(rule, "internal/parser/utils.parseBinOps")
+	if fi == nil {
+		return
+	}
+	info := fi.Pkg.TypesInfo
+	pm := parentMap(fi.Decl.Body)
+	var loop *ast.RangeStmt
+	ast.Inspect(fi.Decl.Body, func(n ast.Node) bool {
+		rs, ok := n.(*ast.RangeStmt)
+		if !ok {
+			return true
+		}
+		labels, _ := contextOf(info, pm, rs, fi.Decl.Body)
+		if len(labels) == 1 && strings.Contains(labels[0], "CardManyToMany") {
+			if call, ok := ast.Unparen(rs.X).(*ast.CallExpr); ok && isCallTo(info, call, "internal/parser/utils.walkNode") && len(call.Args) == 2 && strings.HasSuffix(exprStr(call.Args[1]), ".LHS") {
+				loop = rs
+			}
+		}
+		return true
+	})
+	if loop == nil {
+		c.Undecided(rule, "parseBinOps:[CardManyToMany] loop over the left side", fi.Decl.Pos(), "not found")
+		return
+	}
+	var lv types.Object
+	if id, ok := loop.Value.(*ast.Ident); ok {
+		if lv = info.Defs[id]; lv == nil {
+			lv = info.Uses[id]
+		}
+	}
+	stored := false
+	ast.Inspect(loop.Body, func(n ast.Node) bool {
+		as, ok := n.(*ast.AssignStmt)
+		if !ok {
+			return true
+		}
+		for _, l := range as.Lhs {
+			if sel, ok := l.(*ast.SelectorExpr); ok && sel.Sel.Name == "AlwaysReturns" && fieldOwner(info, sel) == qSource && isObj(info, sel.X, lv) {
+				stored = true
+			}
+		}
+		return true
+	})
+	c.Check(stored, rule, "parseBinOps:[CardManyToMany] AlwaysReturns of the left side is re-evaluated for and/unless", loop.Pos(), "re-evaluated",
+		"the left side of `and`/`unless` keeps AlwaysReturns although the operator returns nothing when the right side is empty (and) or matches (unless): `(vector(1) and on() foo) or bar` reports bar as dead code, yet Prometheus returns bar whenever foo has no series")
+}
